@@ -43,7 +43,11 @@ Inductive op :=
 | OSetMark (v: nat)       (* markedPosition = v *)
 | OGetMark.
 
-Inductive out := OBytes (b: bytes) | ONum (n: nat) | ONone | OErr (* ValueError: negative seek *).
+Inductive out :=
+| OBytes (b: bytes) | ONum (n: nat) | ONone
+| OErr          (* ValueError: negative seek *)
+| ONoData       (* read()/peek() answered None: a non-blocking raw stream had nothing yet *)
+| OTypeError.   (* BytesIO.write(None): finding F05 *)
 
 (* ---------- the wrapper ---------- *)
 Inductive variant := Cur | Fix.
@@ -228,6 +232,126 @@ Definition substrate_bytes (x: substrate) : option bytes :=
   | SOther => None
   end.
 
+(* ---------- the wrapper over ANY raw stream ----------
+   The raw stream is an arbitrary deterministic machine [rread]: read(n) (Some n, n > 0) or
+   read(-1) (None) answers Some octets - as few as it likes, [] meaning end of data - or None
+   ("no data yet", a non-blocking stream).  The reference is a seekable stream that keeps
+   everything delivered so far and asks the same source for more exactly when a read goes beyond
+   it ([fstep]; harness twin: SeekPackets).  [f05] says whether fixes/F05.diff is applied. *)
+Section AnyRaw.
+  Variable R : Type.
+  Variable rread : option nat -> R -> option bytes * R.
+
+  (* [gw] is a wrapper state whose raw_rest is unused (kept []) *)
+  Record gwstate := mkGW { graw: R; gw: wstate }.
+  Definition gw_init (r: R) : gwstate := mkGW r (w_init []).
+
+  Definition g_after_none (f05: bool) (c: bytes) : out :=
+    if f05 then match c with [] => ONoData | _ => OBytes c end else OTypeError.
+
+  Definition g_read (f05: bool) (n: nat) (g: gwstate) : gwstate * out :=
+    let w := gw g in
+    let (c, b1) := bio_read n (wcache w) in
+    match n - length c with
+    | O => (mkGW (graw g) (with_cache w b1), OBytes c)
+    | S k => let (m, r') := rread (Some (S k)) (graw g) in
+             match m with
+             | Some d => (mkGW r' (with_cache w (bio_write d b1)), OBytes (c ++ d))
+             | None => (mkGW r' (with_cache w b1), g_after_none f05 c)
+             end
+    end.
+  Definition g_read_all (f05: bool) (g: gwstate) : gwstate * out :=
+    let w := gw g in
+    let (c, b1) := bio_read_all (wcache w) in
+    let (m, r') := rread None (graw g) in
+    match m with
+    | Some d => (mkGW r' (with_cache w (bio_write d b1)), OBytes (c ++ d))
+    | None => (mkGW r' (with_cache w b1), g_after_none f05 c)
+    end.
+  (* peek: result = self.read(n); [if result:] cache.seek(-len(result), SEEK_CUR) *)
+  Definition g_peek (f05: bool) (n: nat) (g: gwstate) : gwstate * out :=
+    let (g1, x) := g_read f05 n g in
+    match x with
+    | OBytes r => (mkGW (graw g1) (with_cache (gw g1) (bio_seek_cur_back (length r) (wcache (gw g1)))), x)
+    | _ => (g1, x)
+    end.
+  Definition gwstep (f05: bool) (v: variant) (bufsize: nat) (g: gwstate) (o: op) : gwstate * out :=
+    match o with
+    | ORead n => g_read f05 n g
+    | OReadAll => g_read_all f05 g
+    | OPeek n => g_peek f05 n g
+    | _ => let (w', x) := wstep v bufsize (gw g) o in (mkGW (graw g) w', x)
+    end.
+
+  (* the seekable reference: [sall (fs f)] is what has been delivered so far *)
+  Record fstate := mkF { fraw: R; fs: sstate }.
+  Definition f_init (r: R) : fstate := mkF r (s_init []).
+  Definition f_read (n: nat) (f: fstate) : fstate * out :=
+    let s := fs f in
+    let c := firstn n (skipn (spos s) (sall s)) in
+    match n - length c with
+    | O => (mkF (fraw f) (mkS (sall s) (spos s + length c) (smark s)), OBytes c)
+    | S k => let (m, r') := rread (Some (S k)) (fraw f) in
+             match m with
+             | Some d => (mkF r' (mkS (sall s ++ d) (spos s + length c + length d) (smark s)), OBytes (c ++ d))
+             | None => (mkF r' (mkS (sall s) (spos s + length c) (smark s)),
+                        match c with [] => ONoData | _ => OBytes c end)
+             end
+    end.
+  Definition f_read_all (f: fstate) : fstate * out :=
+    let s := fs f in
+    let c := skipn (spos s) (sall s) in
+    let (m, r') := rread None (fraw f) in
+    match m with
+    | Some d => (mkF r' (mkS (sall s ++ d) (spos s + length c + length d) (smark s)), OBytes (c ++ d))
+    | None => (mkF r' (mkS (sall s) (spos s + length c) (smark s)),
+               match c with [] => ONoData | _ => OBytes c end)
+    end.
+  Definition f_peek (n: nat) (f: fstate) : fstate * out :=
+    let (f1, x) := f_read n f in
+    match x with
+    | OBytes r => (mkF (fraw f1) (mkS (sall (fs f1)) (spos (fs f1) - length r) (smark (fs f1))), x)
+    | _ => (f1, x)
+    end.
+  Definition fstep (f: fstate) (o: op) : fstate * out :=
+    match o with
+    | ORead n => f_read n f
+    | OReadAll => f_read_all f
+    | OPeek n => f_peek n f
+    | _ => let (s', x) := sstep (fs f) o in (mkF (fraw f) s', x)
+    end.
+
+  Fixpoint gpermittedb (f: fstate) (ops: list op) : bool :=
+    match ops with
+    | [] => true
+    | o :: r => op_okb (fs f) o && gpermittedb (fst (fstep f o)) r
+    end.
+
+  Definition grelated (g: gwstate) (f: fstate) : Prop :=
+    related (gw g) (fs f) /\ raw_rest (gw g) = [] /\ graw g = fraw f.
+End AnyRaw.
+Arguments mkGW {R}. Arguments graw {R}. Arguments gw {R}. Arguments gw_init {R}.
+Arguments mkF {R}. Arguments fraw {R}. Arguments fs {R}. Arguments f_init {R}.
+Arguments gwstep {R}. Arguments fstep {R}. Arguments gpermittedb {R}. Arguments grelated {R}.
+Arguments g_read {R}. Arguments g_read_all {R}. Arguments g_peek {R}.
+Arguments f_read {R}. Arguments f_read_all {R}. Arguments f_peek {R}.
+
+(* a concrete family of raw streams for the harness: data arriving in packets (a read never
+   crosses the end of the packet it starts in), call i answering None when the i-th flag is set
+   and data is still to come (harness twin: RawPackets) *)
+Record praw := mkPraw { pkts: list bytes; pflags: list bool }.
+Definition pread (n: option nat) (r: praw) : option bytes * praw :=
+  let flag := hd false (pflags r) in
+  let fl := tl (pflags r) in
+  match pkts r with
+  | [] => (Some [], mkPraw [] fl)
+  | pk :: rest =>
+      let zero := match n with Some O => true | _ => false end in
+      if flag && negb zero then (None, mkPraw (pkts r) fl)
+      else let k := match n with None => length pk | Some k => Nat.min k (length pk) end in
+           (Some (firstn k pk), mkPraw (if Nat.ltb k (length pk) then skipn k pk :: rest else rest) fl)
+  end.
+
 (* ---------- vocabulary of the correspondence harness (numbers written in N) ---------- *)
 Definition rd (n: N) := ORead (N.to_nat n).
 Definition pk (n: N) := OPeek (N.to_nat n).
@@ -235,13 +359,15 @@ Definition sks (n: N) := OSeekSet (N.to_nat n).
 Definition skb (n: N) := OSeekCurBack (N.to_nat n).
 Definition smk (n: N) := OSetMark (N.to_nat n).
 
-Inductive eout := EBytes (b: bytes) | ENum (n: N) | ENone | EErr.
+Inductive eout := EBytes (b: bytes) | ENum (n: N) | ENone | EErr | ENoData | ETypeError.
 Definition out_matches (o: out) (e: eout) : bool :=
   match o, e with
   | OBytes a, EBytes b => bytes_eqb a b
   | ONum a, ENum b => N.eqb (N.of_nat a) b
   | ONone, ENone => true
   | OErr, EErr => true
+  | ONoData, ENoData => true
+  | OTypeError, ETypeError => true
   | _, _ => false
   end.
 Fixpoint outs_match (os: list out) (es: list eout) : bool :=
@@ -254,3 +380,14 @@ Definition wrapper_matches (v: variant) (bufsize: N) (data: bytes) (ops: list op
   outs_match (outputs (run (wstep v (N.to_nat bufsize)) (w_init data) ops)) es.
 Definition seekable_matches (data: bytes) (ops: list op) (es: list eout) : bool :=
   outs_match (outputs (run sstep (s_init data) ops)) es.
+
+(* packets given by their sizes (N) over the data *)
+Fixpoint cut (sizes: list N) (b: bytes) : list bytes :=
+  match sizes with
+  | [] => match b with [] => [] | _ => [b] end
+  | k :: r => match b with [] => [] | _ => firstn (N.to_nat k) b :: cut r (skipn (N.to_nat k) b) end
+  end.
+Definition gwrapper_matches (f05: bool) (v: variant) (bufsize: N) (r: praw) (ops: list op) (es: list eout) : bool :=
+  outs_match (outputs (run (gwstep pread f05 v (N.to_nat bufsize)) (gw_init r) ops)) es.
+Definition fseekable_matches (r: praw) (ops: list op) (es: list eout) : bool :=
+  outs_match (outputs (run (fstep pread) (f_init r) ops)) es.
